@@ -528,6 +528,8 @@ type c11Result struct {
 	Complete    bool
 	Spins       int
 	Diverged    int
+	// DepthCompleted: the largest depth whose exploration finished within the budget
+	DepthCompleted int
 	HeadOfLine  int
 	holShown    int
 	SpinExample []string
@@ -577,6 +579,7 @@ func c11Worker(t *testing.T) int {
 		base, _ := w.Dump()
 		x := &c11Exec{w: w, cfg: cfg, base: base, subID: uuid.MustParse(idStr)}
 		seen := map[string]int{} // key -> smallest depth at which it was expanded
+		limit := depth
 		var rec func(prefix []string)
 		rec = func(prefix []string) {
 			if !res.Complete {
@@ -632,7 +635,7 @@ func c11Worker(t *testing.T) int {
 				return
 			}
 			seen[key] = len(prefix)
-			if len(prefix) >= depth {
+			if len(prefix) >= limit {
 				return
 			}
 			for _, ev := range c11Events {
@@ -641,7 +644,25 @@ func c11Worker(t *testing.T) int {
 				}
 			}
 		}
-		rec(nil)
+		// iterative deepening over the last level: depth-1 completely first, then the
+		// full depth with what is left of the budget (a budget that runs out at depth d
+		// still leaves "everything up to d-1" as a complete statement)
+		limits := []int{depth}
+		if depth > 5 {
+			limits = []int{depth - 1, depth}
+		}
+		for _, l := range limits {
+			limit = l
+			for k := range seen {
+				delete(seen, k)
+			}
+			res.Complete = true
+			rec(nil)
+			if !res.Complete {
+				break
+			}
+			res.DepthCompleted = l
+		}
 		res.States = len(seen)
 	})
 	b, _ := json.Marshal(res)
@@ -762,6 +783,7 @@ func runC11(t *testing.T, tier string) int {
 	sink := &violSink{}
 	execs, states, sends, spins, hol := 0, 0, 0, 0, 0
 	allComplete := true
+	depthCompleted := 1 << 30
 	per := map[string]any{}
 	var samples []any
 	for i, r := range results {
@@ -772,7 +794,10 @@ func runC11(t *testing.T, tier string) int {
 		execs += r.Executions
 		states += r.States
 		sends += r.Sends
-		per[fmt.Sprintf("messages=%d,bytes=%d", r.Cfg.MaxMessages, r.Cfg.MaxBytes)] = map[string]any{"executions": r.Executions, "quiescent_states": r.States, "sends_checked": r.Sends, "max_depth": r.MaxDepth, "busy_loop_executions": r.Spins, "busy_loop_example": r.SpinExample, "head_of_line_stall_executions": r.HeadOfLine, "complete": r.Complete, "diverged_replays": r.Diverged}
+		per[fmt.Sprintf("messages=%d,bytes=%d", r.Cfg.MaxMessages, r.Cfg.MaxBytes)] = map[string]any{"executions": r.Executions, "quiescent_states": r.States, "sends_checked": r.Sends, "max_depth": r.MaxDepth, "busy_loop_executions": r.Spins, "busy_loop_example": r.SpinExample, "head_of_line_stall_executions": r.HeadOfLine, "complete": r.Complete, "diverged_replays": r.Diverged, "depth_completed": r.DepthCompleted}
+		if r.DepthCompleted < depthCompleted {
+			depthCompleted = r.DepthCompleted
+		}
 		if r.Diverged > 0 {
 			allComplete = false
 		}
@@ -795,6 +820,7 @@ func runC11(t *testing.T, tier string) int {
 		"samples":                       samples,
 		"exhaustive":                    allComplete,
 		"depth":                         depth,
+		"depth_completed_by_every_configuration": depthCompleted,
 		"sends_checked":                 sends,
 		"busy_loop_executions":          spins,
 		"head_of_line_stall_executions": hol,
